@@ -1,5 +1,6 @@
 """C14 -- dejitter, alignBoundariesAcrossTiers and morph move times only as far as allowed and keep labels."""
-from .. import core, gen, tierops
+import sys
+from .. import core, gen, tierops, obshist
 
 ID = "C14"
 MODULE = "Check.C14Check"
@@ -203,3 +204,18 @@ def shrinks(case):
 
 def finding_match(case, r, kind, why, findings):
     return None
+
+
+def _obs_term(kind, state, st, res):
+    if st["op"] == "timestamps":
+        if "ok" not in res:
+            return None
+        return "Timestamps%s %s %s" % (kind, (core.citier if kind == "I" else core.cptier)(state), _zl(res["ok"]["list"]))
+    # the history tier is the REFERENCE: its timestamps, computed here from its current entries
+    times = sorted(set(x for e in state["entries"] for x in e[:-1]))
+    o = st["args"]["other"]
+    ct = core.citier if o["kind"] == "I" else core.cptier
+    return "Dej%s %s %s %s %s" % (o["kind"], ct(o), _zl(times), core.cz(st["args"]["d"]), obshist.res_tier(res, ct))
+
+
+obshist.install(sys.modules[__name__], ["timestamps", "dejref"], ["timestamps", "dejref"], _obs_term)
